@@ -7,6 +7,7 @@ mod life;
 mod mailbox;
 mod ratelim;
 mod registry;
+mod routing;
 mod select;
 mod shutdown;
 mod supervision;
@@ -65,6 +66,7 @@ fn main() {
         "shutdown" => shutdown::run(&args),
         "registry" => registry::run(&args),
         "life" => life::run(&args),
+        "routing" => routing::run(&args),
         "timers" => timers::run(&args),
         "select_listen" => select::listen(&args),
         "select_rws" => select::rws(&args),
